@@ -24,14 +24,7 @@ impl ForeignKeyBuilder for MysqlQueryBuilder {
 
         write!(sql, "DROP FOREIGN KEY ").unwrap();
         if let Some(name) = &drop.foreign_key.name {
-            write!(
-                sql,
-                "{}{}{}",
-                self.quote().left(),
-                name,
-                self.quote().right()
-            )
-            .unwrap();
+            Alias::new(name).prepare(sql.as_writer(), self.quote());
         }
     }
 
@@ -55,14 +48,7 @@ impl ForeignKeyBuilder for MysqlQueryBuilder {
 
         write!(sql, "CONSTRAINT ").unwrap();
         if let Some(name) = &create.foreign_key.name {
-            write!(
-                sql,
-                "{}{}{}",
-                self.quote().left(),
-                name,
-                self.quote().right()
-            )
-            .unwrap();
+            Alias::new(name).prepare(sql.as_writer(), self.quote());
         }
         write!(sql, " FOREIGN KEY ").unwrap();
 
